@@ -152,9 +152,12 @@ static int icmd_pos;		/* icmd[] position */
 /* read s before reading from the terminal */
 void term_push(char *s, int n)
 {
-	n = MIN(n, sizeof(ibuf) - ibuf_cnt);
-	memcpy(ibuf + ibuf_cnt, s, n);
-	ibuf_cnt += n;
+	int pend = ibuf_cnt - ibuf_pos;		/* keys pushed earlier and not read yet */
+	n = MIN(n, sizeof(ibuf) - pend);
+	memmove(ibuf + n, ibuf + ibuf_pos, pend);
+	memcpy(ibuf, s, n);
+	ibuf_pos = 0;
+	ibuf_cnt = n + pend;
 }
 
 /* return a static buffer containing inputs read since the last term_cmd() */
